@@ -886,7 +886,8 @@ impl CodegenContext {
                                 .unwrap_or_else(|| target_pc.into())
                                 + 2)
                             .as_i64();
-                            let mut offset = target_pc - cur_pc;
+                            // Computed in 128 bits: any 64-bit target/pc pair has a representable distance
+                            let mut offset = target_pc as i128 - cur_pc as i128;
                             if (-128..=127).contains(&offset) {
                                 if offset < 0 {
                                     offset += 256;
